@@ -218,3 +218,28 @@ func (P *Program) sortedFuncKeys() []string {
 	sort.Strings(ks)
 	return ks
 }
+
+var repoPkgDirs map[string]bool
+
+// isRepoKey: the contract key names a function of the repository (internal/<pkg>), not of the standard library or a dependency.
+func (P *Program) isRepoKey(key string) bool {
+	if repoPkgDirs == nil {
+		repoPkgDirs = map[string]bool{}
+		if es, err := os.ReadDir(repoDir + "/internal"); err == nil {
+			for _, e := range es {
+				if e.IsDir() {
+					repoPkgDirs[e.Name()] = true
+				}
+			}
+		}
+	}
+	i := strings.Index(key, ".")
+	if i <= 0 {
+		return false
+	}
+	head := key[:i]
+	if j := strings.Index(head, "/"); j > 0 {
+		head = head[:j]
+	}
+	return repoPkgDirs[head]
+}
